@@ -64,7 +64,8 @@ _tr(R, "<lambda>5", 'DW_RLE_startx_endx', ['start_index', 'end_index'], RangeEnt
            "result.is_absolute == True"], "DW_RLE_startx_endx")
 
 L = "elftools/dwarf/locationlists.py"
-LOC = ["result.entry_length == e.entry_length", "result.loc_expr is e.loc_expr"]
+LOC = ["result.entry_length == e.entry_length", "len(result.loc_expr) == len(e.loc_expr)",
+       "forall(lambda i: result.loc_expr[i] == e.loc_expr[i], 0, len(e.loc_expr))"]
 _tr(L, "_translate_startx_length", 'DW_LLE_startx_length', ['start_index', 'length', 'loc_expr'], LocEntryT,
     LOC + ["result.begin_offset == gaddr(cu, e.start_index)", "result.end_offset == gaddr(cu, e.start_index) + e.length",
            "result.is_absolute == True"], "DW_LLE_startx_length")
